@@ -10,13 +10,13 @@ PY = "PYTHONHASHSEED=0 PYTHONPATH=/verif/.deps /venv/bin/python -m vf"
 # id -> (technique, level text, level note, design ref)
 CHECKS = {
     "C02": (
-        "Hypothesis expression-tree generation with law-rewriting; free-abelian-group normal-form oracle; object identity",
+        "Hypothesis expression-tree generation with law-rewriting (exponents up to beyond 2**53; read-only observations - as_ratio, format, str, hash, quantify, deepcopy - of relatives of the sub-expressions made before evaluation); free-abelian-group normal-form oracle; object identity",
         "Exploration: generated pairs of expression trees (half of them constructed to be equal by group-law rewriting) are evaluated by the library and by an independent normal-form model; identity, factors, prefix and dimension must agree. No absence claim.",
         "Trusts the definitional structure of each named unit as read once at start-up; identity only required within one prefix base (the property's own qualification).",
         "§4 C02, §2.6",
     ),
     "C09": (
-        "exhaustive enumeration of all intercepted declarations and named units; exact rational spanning-forest size oracle (cycle residuals); library conversion vs oracle",
+        "exhaustive enumeration of all intercepted declarations and named units, repeated for import-order configurations and for modules imported under a coarse decimal context; exact rational spanning-forest size oracle (cycle residuals); library conversion vs oracle",
         "Exploration with an exhaustively enumerated finite space: every shipped equals() declaration is either a tree edge or closes a fundamental cycle whose exact residual is checked (all cycles are sums of these), every named unit is converted to and from its coherent SI unit and compared with the exact size ratio, and the declared set is re-derived under different first-imported modules.",
         "A unit with a single declaration and a wrong constant is undetectable by mutual consistency. Exact arithmetic: float literals are taken as the exact binary values written.",
         "§4 C09, §2.5",
@@ -40,25 +40,25 @@ CHECKS = {
         "§4 C06",
     ),
     "C07": (
-        "Hypothesis generation of convertible, disconnected and partially connected pairs (shipped, synthetic worlds, long chains) + differential execution of the same case list under python and python -O in fresh subprocesses",
+        "Hypothesis generation of convertible, disconnected and partially connected pairs (shipped, synthetic worlds, long chains; impossible pairs also met through Level and Measurement operands) + differential execution of the same case list under python and python -O in fresh subprocesses",
         "Exploration + differential: only ConversionNotFound may escape in_unit/+/-, == is a bool, ordering may raise TypeError; records of python vs python -O must be identical. AssertionError outside D_ok and RecursionError on chains >= 400 are recorded findings (exact call sites); anything else, or anything inside D_ok, is a violation.",
         "Outcome records compare exception class + innermost frame or repr(magnitude) + str(unit).",
         "§4 C07",
     ),
     "C10": (
-        "exhaustive 12 pairs x 30 x 30 prefix grid with a fixed magnitude table + Hypothesis magnitudes; closed-form Fraction oracle (273.15, 459.67 exact)",
+        "exhaustive 12 pairs x 30 x 30 prefix grid with a fixed magnitude table + Hypothesis magnitudes + enumeration of the command line's own listing (measured.cli) for every scale x prefix; closed-form Fraction oracle (273.15, 459.67 exact)",
         "Exploration with an exhaustively enumerated (pair, prefix, prefix) grid: direct value, round trip, absolute zero, differences, == and < across scales against exact affine formulas.",
         "Tolerance 1e-9 x the largest magnitude the temperature takes along the celsius-kelvin-rankine-fahrenheit path; ties get only consistency clauses.",
         "§4 C10",
     ),
     "C14": (
-        "Hypothesis + enumerated grid over operators, sign patterns, sigma=0, operand kinds, n in [-4,4], int/float/Decimal, unit re-expression; analytic partial-derivative oracle in Fractions with 50-digit square root",
+        "Hypothesis + enumerated grid over operators, sign patterns, sigma=0, operand kinds, n in [-4,4], int/float/Decimal, unit re-expression (length, mass, time, frequency and information families; SI and IEC prefixes, mixed-base prefixes included); analytic partial-derivative oracle in Fractions with 50-digit square root",
         "Exploration: measurand and first-order Gaussian uncertainty of + - * / ** compared with an exact analytic oracle; non-negativity, plain-quantity-as-zero-sigma and unit independence clauses.",
         "rel 1e-9 (2e-5 / 4e-5 where + - convert between different base units over shipped definitions).",
         "§4 C14",
     ),
     "C18": (
-        "Hypothesis + enumerated grid over logarithm families (shipped and generated prefix x base), 12 dimension classes, unit spellings; closed-form 50-digit Decimal oracle",
+        "Hypothesis + enumerated grid over logarithm families (shipped and generated prefix x base), 12 dimension classes, unit spellings + enumerated scenarios (level arithmetic, Dimension.define, offset scales, re-declaration, same-base-unit pairs, tables of close / mixed-type / hash-colliding references); closed-form 50-digit Decimal oracle",
         "Exploration: level of a quantity, quantity of a level, both round trips, strict monotonicity and level == approximately(quantity) in both orders against the logarithmic definition with independently tabulated unit sizes and root-power dimensions.",
         "Level tolerance 1e-9 x max(|L|, (k/p)/|ln b|); exact levels outside [-200,200] excluded; unit spellings restricted to D_ok.",
         "§4 C18",
@@ -70,7 +70,7 @@ CHECKS = {
         "§4 C03",
     ),
     "C08": (
-        "Hypothesis-generated histories (declaration/query interleavings with re-declarations, relatives of the final query, ring+spur definition graphs, Quantity and Measurement queries) replayed in two fresh worlds; differential oracle against the declarations-only world + repeat and graph-reachability invariants; a sample of verdicts re-derived in real subprocesses",
+        "Hypothesis-generated histories (declaration/query interleavings with re-declarations - new ratios, and the same ratio restated in another numeric type, also as an enumerated scenario -, relatives of the final query, ring+spur definition graphs, Quantity and Measurement queries) replayed in two fresh worlds; differential oracle against the declarations-only world + repeat and graph-reachability invariants; a sample of verdicts re-derived in real subprocesses",
         "Exploration over histories: world A runs declarations interleaved with queries, world B (fresh import) the same declarations and only the final query; outcomes must agree; immediate repeats are bit-identical; units linked by the declarations so far never give ConversionNotFound.",
         "A fresh in-process world (measured purged from sys.modules and re-imported) stands for a fresh process.",
         "§4 C08, §2.3",
@@ -88,7 +88,7 @@ CHECKS = {
         "§4 C01, §2.3, §2.6",
     ),
     "C16": (
-        "structural differential (terminals, rules, LALR tables up to state bijection) between a parser freshly built by lark from measured.lark and the shipped _parser.py + Hypothesis grammar-derived sentences and token mutations + atheris coverage-guided differential fuzzing",
+        "structural differential (terminals, rules, LALR tables up to state bijection) between a parser freshly built by lark from measured.lark and the shipped _parser.py + Hypothesis grammar-derived sentences and token mutations, parsed by both artefacts under the default load and under propagate_positions=True (node spans compared) + atheris coverage-guided differential fuzzing",
         "Translation-validation style exploration: the table/terminal/rule comparison covers the table-driven part for all token sequences (counted obligations in the evidence); the sampled differential parse (both start symbols, accepted and rejected inputs) covers the runtime driver.",
         "lark 1.3.1 from the wheelhouse regenerates tables isomorphic to the shipped lark-1.1.2 ones; atheris campaigns are only approximately repeatable (failing inputs are re-run in-process and saved).",
         "§4 C16, §6",
@@ -100,19 +100,19 @@ CHECKS = {
         "§4 C17",
     ),
     "C20": (
-        "harness-owned deterministic line-level thread scheduler (sys.settrace, following calls into library code) driven by Hypothesis-generated schedules + exhaustive enumeration of all interleavings of the two __new__ windows + preemption-bounded enumeration (one, two and one-line-visit preemptions) over constructions by arithmetic, by naming constructors, by nested expressions and by parsing",
+        "harness-owned deterministic line-level thread scheduler (sys.settrace, following calls into library code) driven by Hypothesis-generated schedules + exhaustive enumeration of all interleavings of the two __new__ windows + preemption-bounded enumeration (one, two and one-line-visit preemptions) over constructions by arithmetic, by naming constructors, by nested expressions, by parsing and by threads whose decimal contexts differ",
         "Exploration over schedules: 2-3 threads construct a never-before-constructed dimension/prefix/unit under generated schedules; all threads must get the same object, one registry entry, and later evaluation returns it; the two-thread __new__ window interleavings are enumerated exhaustively.",
         "Line granularity, not bytecode granularity; C-level lru_cache internals are not pre-empted; a lock-based repair would be reported as harness deadlock (exit 2).",
         "§4 C20",
     ),
     "C19": (
-        "model-based stateful generation in fresh worlds: Hypothesis histories of anonymous construction, naming, failing definitions (duplicate/malformed arguments in every position, injected exceptions) and module imports in generated order; declared-bindings model from intercepted definition calls; registry snapshots around every call",
+        "model-based stateful generation in fresh worlds: Hypothesis histories of anonymous construction, naming, failing definitions (duplicate/malformed arguments in every position, injected exceptions, dimensions decoded from stale documents whose rendering raises) and module imports in generated order; declared-bindings model from intercepted definition calls; registry snapshots around every call",
         "Exploration over histories, fault sequences and import-order configurations: after every step every declared name/symbol resolves to its object and is reported by it, no name/symbol belongs to two objects, a raising call leaves all registries identical, and the final named registries equal those of the default import order.",
         "A call that returns normally and was given a name/symbol for an anonymous (or identically named) object counts as a declaration; intercepted from outside without source hooks.",
         "§4 C19",
     ),
     "C11": (
-        "exhaustive enumeration of all prefix pairs and prefix x unit x exponent combinations + Hypothesis compounds/magnitudes; exact Fraction prefix values and size oracle",
+        "exhaustive enumeration of all prefix pairs and prefix x unit x exponent combinations + Hypothesis compounds/magnitudes + scenarios (registry churn; prefixed dimensionless leftovers against One); exact Fraction prefix values and size oracle",
         "Exploration with two exhaustively enumerated sub-spaces (all ordered pairs of registered prefixes; every registered prefix x 30 units x n in [-4,4]): products/quotients add/subtract exponents and are the interned object, identity prefix neutral, m*(p*u) = (m*value(p))*u, (p*u)**n is p**n*u**n, roots invert powers, division by prefixed units, unprefixed() keeps the value; mixed SI/IEC within 1e-9.",
         "value(p) = Fraction(base)**exponent for the registered prefixes.",
         "§4 C11",
@@ -124,7 +124,7 @@ CHECKS = {
         "§4 C13",
     ),
     "C15": (
-        "exhaustive enumeration of every registered dimension/prefix/named unit and of all prefix triples (a*b)/c + Hypothesis compound units and quantities (int incl. huge, float incl. inf, Decimal incl. 40 digits) through pickle 2-5, copy, deepcopy, JSON encoder/decoder, codecs_installed, pydantic, SQL composite + cross-process documents (encode in one world, decode in a fresh one) + round trips around Dimension.define; round-trip oracle with registry snapshots",
+        "exhaustive enumeration of every registered dimension/prefix/named unit and of all prefix triples (a*b)/c + Hypothesis compound units and quantities (int incl. huge, float incl. inf, Decimal incl. 40 digits) through pickle 2-5, copy, deepcopy, JSON encoder/decoder, codecs_installed (string and file API), install()/uninstall(), pydantic, SQL composite + cross-process documents (encode in one world, decode in a fresh one) + round trips around Dimension.define; round-trip oracle with registry snapshots",
         "Exploration with an exhaustively enumerated registry: every interned object must come back as the identical object with unchanged names/symbols from every codec; quantities must come back equal, with the same magnitude type and (pickle/copy) the identical unit object; decoding must not change the name/symbol registries.",
         "pickle protocols 0/1 excluded (Python refuses them for __slots__ classes); pydantic path skips non-finite floats (pydantic writes them as null).",
         "§4 C15",
